@@ -54,7 +54,7 @@ def getOptNat (j : Json) (k : String) : Except String (Option Nat) :=
   | .error _ => pure none
 
 def evToJson : Replay.EvR → Json
-  | .call k now => Json.arr #[.str "call", .num (JsonNumber.fromNat k), .num (JsonNumber.fromNat now)]
+  | .call k now nobs => Json.arr #[.str "call", .num (JsonNumber.fromNat k), .num (JsonNumber.fromNat now), .num (JsonNumber.fromNat nobs)]
   | .sub j now => Json.arr #[.str "sub", .num (JsonNumber.fromNat j), .num (JsonNumber.fromNat now)]
   | .unsub j => Json.arr #[.str "unsub", .num (JsonNumber.fromNat j)]
   | .dispose => Json.arr #[.str "dispose"]
@@ -84,6 +84,7 @@ def handle (op : String) (j : Json) : Except String Json := do
     pure (Json.mkObj [("logs", Json.arr logs.toArray),
                       ("xs", Json.arr (st.xlog.map fun (i, e) => Json.arr #[.num (JsonNumber.fromNat i), .str e]).toArray),
                       ("raised", Json.arr (raised.map optErr).toArray),
+                      ("nobs", Json.arr ((runObsCounts cfg 100000 (init cfg initial) calls).map fun n => Json.num (JsonNumber.fromNat n)).toArray),
                       ("oof", .bool st.oof)])
   | "replay" =>
     let os ← (← getArr j "observers").mapM obsOfJson
